@@ -69,10 +69,13 @@ Definable(c) ==
 ---------------------------------------------------------------------------
 (* (a) THE RULE                                                            *)
 
+MethodKinds == {"meth", "smeth", "ctor", "usep", "user", "usee", "rval", "gct", "dtor",
+                "vmeth", "vdtor", "sig", "opeq", "opneg", "cast"}
+DataKinds == {"data", "datap", "cdata", "sdata"}
 \* a member function of a defined class is callable iff
 MethodGate(c, i) == LET m == Mbr(c, i) IN
-  /\ m.k \in {"meth", "smeth", "ctor", "usep", "user", "usee", "rval", "gct", "dtor"}
-  /\ CASE m.k = "dtor" -> Rank(VisAt(c, i)) <= 1          \* a public destructor is always exported
+  /\ m.k \in MethodKinds
+  /\ CASE m.k \in {"dtor", "vdtor"} -> Rank(VisAt(c, i)) <= 1          \* a public destructor is always exported
        [] m.k = "gct"  -> Rank(VisAt(c, i)) <= 1          \* the get_class_type() kludge
        [] OTHER        -> Rank(VisAt(c, i)) <= MinRank
   /\ ~SigProtected(m) /\ ~SigIgnored(m) /\ ~SigRvalue(m)
@@ -80,7 +83,7 @@ MethodGate(c, i) == LET m == Mbr(c, i) IN
 \* "del", "tmpl", "friend", "tdef" never yield a callable
 
 \* a data member yields an element (and accessor functions when its type can be named)
-DataGate(c, i) == Mbr(c, i).k \in {"data", "datap"} /\ Rank(VisAt(c, i)) <= MinRank /\ ~IgnoredMember(c, i)
+DataGate(c, i) == Mbr(c, i).k \in DataKinds /\ Rank(VisAt(c, i)) <= MinRank /\ ~IgnoredMember(c, i)
 DataCallable(c, i) == DataGate(c, i) /\ ~SigProtected(Mbr(c, i))
 
 \* a nested type declaration is walked iff
@@ -134,7 +137,7 @@ RGlobal == {CT(c) : c \in {x \in 1..NC : ScanClass(x) \/ Forced(x)}}
            \cup {CT(lib.tops[t].rc) : t \in {x \in 1..NT : ScanTypedef(x)}}
            \cup {x \in RDefined : IsClassT(x)}
 \* a defined class has a destructor function unless it declares an inaccessible one
-HasDtor(c) == \A i \in 1..NM(c) : Mbr(c, i).k = "dtor" => MethodGate(c, i)
+HasDtor(c) == \A i \in 1..NM(c) : Mbr(c, i).k \in {"dtor", "vdtor"} => MethodGate(c, i)
 \* what the sentence calls "exported"
 Exported(e) == e \in RCallable
 
@@ -208,11 +211,11 @@ DefineStep ==
                  ELSE \* walk the members: define_method / scan_element / nested declarations
                    LET meths == {i \in 1..NM(c) :
                                    LET m == Mbr(c, i) IN
-                                   /\ m.k \in {"meth", "smeth", "ctor", "usep", "user", "usee", "rval", "gct", "dtor"}
-                                   /\ (m.k \in {"dtor", "gct"} /\ Rank(VisAt(c, i)) <= 1) \/ Rank(VisAt(c, i)) <= MinRank
+                                   /\ m.k \in MethodKinds
+                                   /\ (m.k \in {"dtor", "vdtor", "gct"} /\ Rank(VisAt(c, i)) <= 1) \/ Rank(VisAt(c, i)) <= MinRank
                                    /\ ~SigProtected(m) /\ ~SigIgnored(m) /\ ~IgnoredMember(c, i) /\ ~SigRvalue(m)}
                        \* scan_element: on the unchanged tree it does not consult ignoremember (ElemIgnore = FALSE)
-                       elems == {i \in 1..NM(c) : Mbr(c, i).k \in {"data", "datap"} /\ Rank(VisAt(c, i)) <= MinRank
+                       elems == {i \in 1..NM(c) : Mbr(c, i).k \in DataKinds /\ Rank(VisAt(c, i)) <= MinRank
                                                     /\ (ElemIgnore => ~IgnoredMember(c, i))}
                        nests == {i \in 1..NM(c) : Mbr(c, i).k \in {"nclass", "enum"} /\
                                    (Rank(VisAt(c, i)) <= MinRank \/ (Mbr(c, i).k = "nclass" /\ Forced(Mbr(c, i).rc)))}
@@ -245,7 +248,7 @@ DeclSig(e) == IF e.t = "m" THEN Mbr(e.c, e.i) ELSE lib.tops[e.i]
 \* no callable for a declaration below the requested visibility, except the two documented exceptions
 SafeVis == \A e \in calls :
   \/ Rank(DeclVis(e)) <= MinRank
-  \/ DeclKind(e) \in {"dtor", "gct"} /\ Rank(DeclVis(e)) <= 1
+  \/ DeclKind(e) \in {"dtor", "vdtor", "gct"} /\ Rank(DeclVis(e)) <= 1
 \* nothing protected or private is ever callable
 SafeAccess == \A e \in calls : Rank(DeclVis(e)) <= 1
 \* never for a deleted / template member, a friend, a function-like macro, a static function
@@ -258,7 +261,7 @@ SafeFile == \A e \in calls :
 \* (ignoreinvolved is documented for functions only: accessors of a data member are outside the claim)
 SafeSig == \A e \in calls :
   /\ ~SigProtected(DeclSig(e)) /\ ~SigRvalue(DeclSig(e))
-  /\ DeclKind(e) \notin {"data", "datap"} => ~SigIgnored(DeclSig(e))
+  /\ DeclKind(e) \notin DataKinds => ~SigIgnored(DeclSig(e))
 \* never for a member of a class that is protected/private itself or excluded by a command
 SafeOwner == \A e \in calls : e.t = "m" =>
   /\ ~ProtType(CT(e.c))
